@@ -18,6 +18,15 @@
 //	                                      after the JSON round trip
 //	N <hexname>                           file name through ToJson/FromJson -> hex of the name read back
 //	run <hexsource> <filename>            api.RunCode -> hex(stdout+stderr) errkind
+//	H <step;step;...>                     a history on ONE FileSet object:
+//	    a,FILE      AddFileWithCap + SetLinesForContent + AddLineColumnInfo per info
+//	    s,FILE      AddFile + the real scanner over the content (line table and //line infos come from the scanner)
+//	    i,k,INFO    AddLineColumnInfo on the k-th file of the set
+//	    q,p.p.p     Position(p) and PositionFor(p,false) for each p
+//	    r,FILE|...  build ANOTHER set from the files, ToJson it, FromJson INTO THE SAME object
+//	    j           FromJson(ToJson()) of the object into itself
+//	    FILE = name+base+size+cap+hexcontent|~+INFO/INFO/...|-      INFO = offset:filename:line:col
+//	    -> answers of the q steps, steps separated by "|"; answer = adjusted~unadjusted
 package main
 
 import (
@@ -26,6 +35,7 @@ import (
 	"strings"
 
 	"wa-lang.org/wa/api"
+	"wa-lang.org/wa/internal/scanner"
 	"wa-lang.org/wa/internal/token"
 	"wa-lang.org/wa/internal/zz_verif/vh"
 )
@@ -224,6 +234,136 @@ func opRun(src []byte, filename string) string {
 	return vh.Hex(out) + " " + kind
 }
 
+func ans2(fs *token.FileSet, p int) string {
+	return ans(fs.PositionFor(token.Pos(p), true)) + "~" + ans(fs.PositionFor(token.Pos(p), false))
+}
+
+func parseInfo(x string) (off int, fn string, line, col int, ok bool) {
+	f := strings.Split(x, ":")
+	if len(f) != 4 {
+		return
+	}
+	var e1, e2, e3 error
+	off, e1 = strconv.Atoi(f[0])
+	line, e2 = strconv.Atoi(f[2])
+	col, e3 = strconv.Atoi(f[3])
+	return off, f[1], line, col, e1 == nil && e2 == nil && e3 == nil
+}
+
+func addSpec(fs *token.FileSet, spec string, scan bool) bool {
+	x := strings.Split(spec, "+")
+	if len(x) != 6 {
+		return false
+	}
+	base, e1 := strconv.Atoi(x[1])
+	size, e2 := strconv.Atoi(x[2])
+	cp, e3 := strconv.Atoi(x[3])
+	if e1 != nil || e2 != nil || e3 != nil {
+		return false
+	}
+	if scan {
+		src := vh.UnHex(x[4])
+		f := fs.AddFile(x[0], base, len(src))
+		var sc scanner.Scanner
+		sc.Init(f, src, nil, scanner.ScanComments)
+		for i := 0; i <= len(src)+1; i++ {
+			if _, tok, _ := sc.Scan(); tok == token.EOF {
+				break
+			}
+		}
+		return true
+	}
+	f := fs.AddFileWithCap(x[0], base, size, cp)
+	if x[4] != "~" {
+		f.SetLinesForContent(vh.UnHex(x[4]))
+	}
+	if x[5] != "-" {
+		for _, in := range strings.Split(x[5], "/") {
+			off, fn, line, col, ok := parseInfo(in)
+			if !ok {
+				return false
+			}
+			f.AddLineColumnInfo(off, fn, line, col)
+		}
+	}
+	return true
+}
+
+func nthFile(fs *token.FileSet, k int) *token.File {
+	var r *token.File
+	i := 0
+	fs.Iterate(func(f *token.File) bool {
+		if i == k {
+			r = f
+			return false
+		}
+		i++
+		return true
+	})
+	return r
+}
+
+func opH(hist string) string {
+	fs := token.NewFileSet()
+	var outs []string
+	for _, st := range strings.Split(hist, ";") {
+		kind, arg := st, ""
+		if i := strings.IndexByte(st, ','); i >= 0 {
+			kind, arg = st[:i], st[i+1:]
+		}
+		switch kind {
+		case "a", "s":
+			if !addSpec(fs, arg, kind == "s") {
+				return "bad-op"
+			}
+		case "i":
+			x := strings.SplitN(arg, ",", 2)
+			k, err := strconv.Atoi(x[0])
+			if err != nil || len(x) != 2 {
+				return "bad-op"
+			}
+			off, fn, line, col, ok := parseInfo(x[1])
+			f := nthFile(fs, k)
+			if !ok || f == nil {
+				return "bad-op"
+			}
+			f.AddLineColumnInfo(off, fn, line, col)
+		case "q":
+			var parts []string
+			for _, ps := range strings.Split(arg, ".") {
+				p, err := strconv.Atoi(ps)
+				if err != nil {
+					return "bad-op"
+				}
+				parts = append(parts, ans2(fs, p))
+			}
+			outs = append(outs, strings.Join(parts, ","))
+		case "r":
+			other := token.NewFileSet()
+			if arg != "-" {
+				for _, sp := range strings.Split(arg, "|") {
+					if !addSpec(other, sp, false) {
+						return "bad-op"
+					}
+				}
+			}
+			if err := fs.FromJson(other.ToJson()); err != nil {
+				return "JSONERR " + err.Error()
+			}
+		case "j":
+			if err := fs.FromJson(fs.ToJson()); err != nil {
+				return "JSONERR " + err.Error()
+			}
+		default:
+			return "bad-op"
+		}
+	}
+	if len(outs) == 0 {
+		return "-"
+	}
+	return strings.Join(outs, "|")
+}
+
 func main() {
 	vh.Loop(func(f []string, line string) string {
 		if len(f) == 0 {
@@ -240,6 +380,8 @@ func main() {
 			return opW(vh.UnHex(f[1]))
 		case f[0] == "N" && len(f) == 2:
 			return opN(vh.UnHex(f[1]))
+		case f[0] == "H" && len(f) == 2:
+			return opH(f[1])
 		case f[0] == "run" && len(f) == 3:
 			return opRun(vh.UnHex(f[1]), f[2])
 		}
